@@ -28,7 +28,20 @@ import (
 	"verif.local/tools/instr"
 )
 
-const verifDir = "/verif"
+// verifDir is the root of the verification tree: the directory that holds bin/vcheck (so that a
+// snapshot of /verif, as made by `vp run`, uses its own sources and writes its own outputs).
+var verifDir = func() string {
+	if exe, err := os.Executable(); err == nil {
+		if real, err := filepath.EvalSymlinks(exe); err == nil {
+			exe = real
+		}
+		root := filepath.Dir(filepath.Dir(exe))
+		if _, err := os.Stat(filepath.Join(root, "sim", "go.mod")); err == nil {
+			return root
+		}
+	}
+	return "/verif"
+}()
 
 // outDir receives evidence/ and replays/; VERIF_OUT redirects it (used when a
 // check is run against a scratch copy of the repository, e.g. by sensitivity.sh,
@@ -518,7 +531,7 @@ func doReplay(path string) int {
 	_, bins := prepare(map[string]bool{tf.Build: true})
 	defer cleanup()
 	code, out := replayOnce(bins[tf.Build], path, tf.Build, tf.Env, true)
-	for try := 0; try < 6 && code == 0 && tf.Build == "race"; try++ {
+	for try := 0; try < 12 && code == 0 && tf.Build == "race"; try++ {
 		code, out = replayOnce(bins[tf.Build], path, tf.Build, tf.Env, true)
 	}
 	fmt.Print(out)
@@ -746,7 +759,7 @@ func doCheck(prop, tier string, seed uint64, bs []batch, scale float64) int {
 				code, _ = replayOnce(bins[f.build], path, f.build, nil, false)
 				// whether the race detector still holds the earlier access in its shadow cells is
 				// not something the simulator decides: give a race a few fresh processes
-				for try := 0; try < 6 && code != 1 && f.build == "race"; try++ {
+				for try := 0; try < 12 && code != 1 && f.build == "race"; try++ {
 					code, _ = replayOnce(bins[f.build], path, f.build, nil, false)
 				}
 				if code != 1 {
